@@ -368,3 +368,4 @@ fn settings_window_change(decrease: bool, lo: u8, hi: u8) {
 pub fn c02_settings_decrease_live() { settings_window_change(true, 0, 5) }
 pub fn c02_settings_decrease_closed() { settings_window_change(true, 6, 11) }
 pub fn c02_settings_increase_live() { settings_window_change(false, 0, 5) }
+pub fn c02_settings_increase_closed() { settings_window_change(false, 6, 11) }
